@@ -3,6 +3,7 @@ package lazy
 import (
 	"encoding/json"
 	"fmt"
+	"os"
 	"runtime"
 	"sync"
 	"sync/atomic"
@@ -176,10 +177,14 @@ func genCCase(t *rapid.T) *CCase {
 	return c
 }
 
-const ruleC15 = "round = one shared lazyproto.Decoder (definition with nested parts, safe or fast mode, optional max buffer size, optional buffer filter {halving, constant 2, identity}) + G in {2,4,8,16,64} goroutines released by a barrier, each looping Decode -> run its queries (incl. NestedResult(s) paths) -> compare with the reference parse of ITS OWN input (expectations computed beforehand) -> Close, with rapid-chosen runtime.Gosched() injection points, GOMAXPROCS in {1,2,16}; the binary is built with -race and halts on the first race report; " +
+const ruleC15 = "round = one shared lazyproto.Decoder (definition with nested parts, safe or fast mode, optional max buffer size, optional buffer filter {halving, constant 2, identity}) + G in {2,4,8,16,64} goroutines released by a barrier, each looping Decode -> run its queries (incl. NestedResult(s) paths) -> compare with the reference parse of ITS OWN input (expectations computed beforehand) -> Close, with rapid-chosen runtime.Gosched() injection points, GOMAXPROCS in {1,2,16}; the binary is built with -race and halts on the first race report; cold-start rounds: 8 (thorough 120) fresh processes in which the FIRST lazyproto calls of the process - Decode, every accessor of every field (fitting and misfitting, single and slice), NestedResults, Close - are made by 8 goroutines sharing one Decoder; " +
 	"non-trivial = an iteration during which >= 2 goroutines were between Decode and Close at once (atomic in-flight counter); such iterations are distinct by construction (round, goroutine, iteration)"
 
 func TestC15(t *testing.T) {
+	if v := os.Getenv(envC15Child); v != "" {
+		c15ColdChild(t, v)
+		return
+	}
 	rec := ev.New("C15", ruleC15)
 	defer rec.Write()
 	defer func() { t.Log(rec.Summary()) }()
@@ -205,6 +210,7 @@ func TestC15(t *testing.T) {
 		rec.Check(rt, "ccase", c, f)
 	})
 	rec.JournalClear()
+	c15ColdRounds(t, rec)
 }
 
 func replayCCase(raw json.RawMessage) *ev.Failure {
